@@ -309,9 +309,9 @@ fn check_writer(c: &WCase, info: &mut Info) -> Result<(), String> {
 }
 
 pub fn run(ctx: &mut Ctx) {
-    ctx.rule("uniform: every seed archive x uniform underlying chunk size 1..64 x {direct, BufReader caps 1,7,64,4096} x caller-buffer schedules; cuts: ONE short read at EVERY byte position of every seed archive (exhaustive); random: generated archives x random schedules; all through the seekable and the streaming reader, compared with an unchunked Cursor read (metadata, bytes, error-ness; zero-length reads return 0; reads after EOF return 0). writer: generated programs (all entry kinds incl. extra data, aligned, ZipCrypto, append) into a sink accepting short writes by schedule: bytes identical to the unchunked run; caller-side write splitting (pieces delivered by write_all, by write() loops honouring the returned counts, or by write_vectored over groups of pieces): decoded entries identical. Non-trivial = at least one short transfer happened.");
+    ctx.rule("uniform: every seed archive x uniform underlying chunk size 1..56 and {100,127,128,129,200,255,1000,4095} x {direct, BufReader caps 1,7,64,4096} x caller-buffer schedules; cuts: ONE short read at EVERY byte position of every seed archive (exhaustive); random: generated archives x random schedules; all through the seekable and the streaming reader, compared with an unchunked Cursor read (metadata, bytes, error-ness; zero-length reads return 0; reads after EOF return 0). writer: generated programs (all entry kinds incl. extra data, aligned, ZipCrypto, append) into a sink accepting short writes by schedule: bytes identical to the unchunked run; caller-side write splitting (pieces delivered by write_all, by write() loops honouring the returned counts, or by write_vectored over groups of pieces): decoded entries identical. Non-trivial = at least one short transfer happened.");
     let seeds = seeds::small_seeds();
-    let callers: [&[usize]; 6] = [&[4096], &[1], &[0, 2, 0], &[3, 7], &[64, 0, 1], &[65536]];
+    let callers: [&[usize]; 11] = [&[4096], &[1], &[0, 2, 0], &[3, 7], &[64, 0, 1], &[65536], &[7, 4096], &[1, 200], &[15, 129, 3], &[5, 128, 0, 500], &[33, 127, 129]];
     let brs = [0usize, 1, 7, 64, 4096];
     let total = (seeds.len() * 64 * brs.len()) as u64;
     ctx.enumerate::<Sched>(
@@ -320,7 +320,8 @@ pub fn run(ctx: &mut Ctx) {
         &|k| {
             let k = k as usize;
             let seed = k % seeds.len();
-            let chunk = 1 + (k / seeds.len()) % 64;
+            let c = (k / seeds.len()) % 64;
+            let chunk = if c < 56 { 1 + c } else { [100usize, 127, 128, 129, 200, 255, 1000, 4095][c - 56] };
             let br = brs[(k / (seeds.len() * 64)) % brs.len()];
             Sched { seed, schedule: vec![chunk], cuts: vec![], bufreader: br, caller: callers[(k / 3) % callers.len()].to_vec() }
         },
